@@ -33,7 +33,7 @@ type vReplayFile struct {
 	ReadLens []int          `json:"read_lens"`
 	Repeat   int            `json:"repeat"`
 	Params   map[string]int `json:"params"`
-	Expect string         `json:"expect"`
+	Expect   string         `json:"expect"`
 }
 
 type vAssertFailed struct{ msg string }
@@ -85,7 +85,28 @@ func (vScriptedReader) Read(b []byte) (int, error) {
 
 var vShort bool
 
+// vTapeScript fixes the next eight source bytes (two probe words); natively the
+// replay tape already carries them at this position, they are written again so
+// that a hand-edited tape cannot disagree with the harness.
+var vScript []byte
+
+func vTapeScript(w0, w1 uint32) {
+	vScript = []byte{byte(w0 >> 24), byte(w0 >> 16), byte(w0 >> 8), byte(w0), byte(w1 >> 24), byte(w1 >> 16), byte(w1 >> 8), byte(w1)}
+}
+func vTapeScriptEnd() { vScript = nil }
+
 func vNextTapeByte() byte {
+	if len(vScript) > 0 {
+		c := vScript[0]
+		vScript = vScript[1:]
+		if vTapePos < len(vTapeB) {
+			vTapeB[vTapePos] = c
+		} else if vTapePos == len(vTapeB) {
+			vTapeB = append(vTapeB, c)
+		}
+		vTapePos++
+		return c
+	}
 	if vTapePos < len(vTapeB) {
 		c := vTapeB[vTapePos]
 		vTapePos++
@@ -146,7 +167,7 @@ func vAssert(c bool, msg string) {
 	}
 }
 
-func vReach(label string)                {}
+func vReach(label string) {}
 func vNote(key string, v interface{}) {
 	if strings.HasPrefix(key, "self:") {
 		vSayf("REPLAY-SELF: %s=%v\n", strings.TrimPrefix(key, "self:"), v)
@@ -206,8 +227,8 @@ func vDrawNIs(i int, n uint32) bool {
 	return i >= 0 && i < len(verifDrawLog) && verifDrawLog[i].N == n
 }
 func vDrawN(i int) uint32 { return verifDrawLog[i].N }
-func vReads() int          { return vReadCnt }
-func vTapeLen() int        { return vTapePos }
+func vReads() int         { return vReadCnt }
+func vTapeLen() int       { return vTapePos }
 func vTapeByte(i int) byte {
 	if i < len(vTapeB) {
 		return vTapeB[i]
@@ -302,7 +323,7 @@ func vReplayDraws(from int) {
 }
 
 // vTapeRewind: serve the same source bytes again from the start.
-func vTapeRewind() { vTapePos = 0 }
+func vTapeRewind()        { vTapePos = 0 }
 func vOr(a, b bool) bool  { return a || b }
 func vAnd(a, b bool) bool { return a && b }
 
